@@ -3,6 +3,7 @@ JSON codec for the core fragment (driver side of harness/props/c01.py, c02.py, c
 -/
 import Lean.Data.Json
 import Cnl2aspModel.Cnl.Stratify
+import Cnl2aspModel.Cnl.Pref
 
 namespace Cnl2aspModel.Core.Codec
 open Lean Asp Core
@@ -167,5 +168,43 @@ def compileOp (j : Json) : Json :=
     let order := (getArr j "order").filterMap (fun x => x.getStr?.toOption) |>.map String.toList
     Json.mkObj [("rules", Json.arr (s.map (fun σ => Json.arr (σ.rules.map ruleJ).toArray)).toArray),
                 ("stratified", Json.bool (stratifiedB s order))]
+
+def prioOf (j : Json) : Priority :=
+  match getStr j "k" with
+  | "named" => .named (getStr j "w")
+  | "number" => .number (getNat j "n")
+  | _ => .unstated
+
+def prefOf (j : Json) : Option PrefSentence :=
+  match getStr j "k" with
+  | "aggOpt" => do
+      let fn ← fnOf (getStr j "fn")
+      let tuple ← (getArr j "tuple").mapM termOf
+      let cond ← (getArr j "cond").mapM litOf
+      pure (.aggOpt (getStr j "phrase") (prioOf (getObj j "prio")) fn tuple cond (getNat j "r"))
+  | "situation" => do
+      let cs ← (getArr j "cs").mapM clauseOf
+      let ps ← (getArr j "params").mapM termOf
+      pure (.situation (getStr j "phrase") (prioOf (getObj j "prio")) cs ps)
+  | "varOpt" => do
+      let v ← termOf (getObj j "v")
+      let cs ← (getArr j "cs").mapM clauseOf
+      let ps ← (getArr j "params").mapM termOf
+      pure (.varOpt (getStr j "phrase") (prioOf (getObj j "prio")) v cs ps)
+  | _ => none
+
+def weakJ (w : Weak) : Json := Json.mkObj [("body", Json.arr (w.body.map litJ).toArray), ("aggs", Json.arr (w.aggs.map aggJ).toArray),
+  ("neg", Json.bool w.neg), ("weight", termJ w.weight), ("level", Json.num (JsonNumber.fromNat w.level)),
+  ("terms", Json.arr (w.terms.map termJ).toArray)]
+
+/-- `c04.compile`: the rules of the core sentences and the weak constraint of every preference -/
+def compilePrefsOp (j : Json) : Json :=
+  match specOf j, (getArr j "prefs").mapM prefOf with
+  | some s, some ps =>
+    let order := (getArr j "order").filterMap (fun x => x.getStr?.toOption) |>.map String.toList
+    Json.mkObj [("rules", Json.arr (s.map (fun σ => Json.arr (σ.rules.map ruleJ).toArray)).toArray),
+                ("stratified", Json.bool (stratifiedB s order)),
+                ("weak", Json.arr ((compilePrefs ps).map weakJ).toArray)]
+  | _, _ => Json.mkObj [("err", "bad-spec")]
 
 end Cnl2aspModel.Core.Codec
